@@ -82,7 +82,7 @@ class PyGen:
         if fam == 'float':
             return r.choice(gen.DOUBLES[:6] + [r.random() * 1e6])
         if fam == 'str':
-            return r.choice(gen.STRINGS[:12])
+            return r.choice(gen.STRINGS[:22])
         if fam == 'bytes':
             return bytearray(r.randrange(256) for _ in range(r.randint(0, 5)))
         if fam == 'wrap':
